@@ -1,6 +1,6 @@
 (* Single entry point used by the extracted binary and by `Eval vm_compute` case files. *)
 From Coq Require Import List NArith ZArith Bool.
-From Dznpy Require Import Base.PyStr Base.Sexp Run.RunText Run.RunScope Run.RunPorts Run.RunJson Run.RunCpp Run.RunBuild.
+From Dznpy Require Import Base.PyStr Base.Sexp Run.RunText Run.RunScope Run.RunPorts Run.RunJson Run.RunCpp Run.RunBuild Run.RunConc.
 Import ListNotations.
 Open Scope Z_scope.
 
@@ -17,6 +17,7 @@ Definition dispatch (x : sexp) : sexp :=
   else if (t =? 602) then run_build3 t a
   else if (600 <=? t) && (t <? 700) then run_build t a
   else if (t =? 700) then run_selector t a
+  else if (710 <=? t) && (t <? 730) then run_conc t a
   else SL [SI (-1)].
 
 Definition run_all (l : list sexp) : list sexp := map dispatch l.
